@@ -39,6 +39,9 @@ def run(tier):
     for d in (1, -1):
         jobs.append(dict(fn="props.integrate_events:job_events", label="%s/%s" % (PID, IE.config_label(1, (True,), d, 0, False, True)),
                          kwargs=dict(prop=PID, n=1, terminals=[True], direction=d, infinite=True)))
+    # the same stop from a system whose earlier call failed (its exception object is still stored as the status): status 2 all the same
+    jobs.append(dict(fn="props.integrate_events:job_events", label="%s/%s,after-a-failure" % (PID, IE.config_label(1, (True,), 1)),
+                     kwargs=dict(prop=PID, n=1, terminals=[True], direction=1, after_failure=True)))
     jobs.extend(IE.recursive_jobs(PID, cfgs))
     jobs.append(dict(fn="props.integrate_events:job_status", label=PID + "/status", kwargs=dict(prop=PID)))
     EC.obligations_of(reg, R, jobs)
